@@ -205,7 +205,7 @@ PENDING = {
     'C05': 'designed (DESIGN.md 4 C05), not yet built',
     'C06': 'designed (DESIGN.md 4 C06), not yet built',
     'C07': 'designed (DESIGN.md 4 C07), not yet built',
-    'C08': 'container-heavy C++ (std::vector<bool>, stable_sort); only a bounded stand-in was planned (DESIGN.md 4 C08), not built',
+    'C08': 'container-heavy C++ (std::vector<bool>, std::pair brace-initialisation, std::stable_sort) outside the mechanically extractable C subset; the postconditions need counting/permutation spec functions CBMC lacks - only a bounded stand-in was ever possible and none is claimed (DESIGN.md 4 C08, 9.4)',
     'C10': 'designed (DESIGN.md 4 C10), not yet built',
     'C11': 'designed (DESIGN.md 4 C11), not yet built',
     'C12': 'designed (DESIGN.md 4 C12), not yet built',
